@@ -73,6 +73,7 @@ func init() {
 
 func runC22(c *Ctx) {
 	procStateFresh(c, "S1-per-packet-state")
+	scmpReversal(c, c.Const("router.External"), "R2-scmp-reply-egress-update")
 	// S1: all accumulator updates are XOR with BigEndian.Uint16(mac[:2])
 	if v := c.View("(*pkg/slayers/path.InfoField).UpdateSegID"); v != nil {
 		v.RequireStore("S1-xor-agreement", 1, "recv.SegID",
